@@ -3,4 +3,4 @@ for p in sys.argv[1:]:
     d=json.load(open(p))
     print(p,{k:d.get(k) for k in ['episodes','nontrivial','steps','verdicts','wall_s','foreign_clauses','known_hits','infra']})
     print('  probes',d.get('probes'))
-    for v in d['violations']: print('  VIOL',v)
+    for v in (d['violations'] or []): print('  VIOL',v)
